@@ -5,7 +5,7 @@ pid = sys.argv[1]
 claim = sys.argv[2]
 m = json.load(open('/verif/MANIFEST.json'))
 cfg = json.load(open('/verif/checks/%s.json' % pid))
-note = "trusted: Coq 8.16.1 kernel + vm_compute (no native_compute), the rs2v translator where Gen tables are used, the Rust harness and the ./check comparer. " + " ".join(cfg.get("assumptions", []))[:900]
+note = "trusted: Coq 8.16.1 kernel + vm_compute (no native_compute), the rs2v translator where Gen tables are used, the Rust harness and the ./check comparer. " + "Premises, bounds, section hypotheses and canonicalisations (full list in checks/%s.json and TRUSTED_BASE.md): " % pid + " | ".join(cfg.get("assumptions", []))
 entry = {
  "property_id": pid, "quick_cmd": "./check %s quick" % pid, "thorough_cmd": "./check %s thorough" % pid,
  "evidence_file": "evidence/%s.json" % pid, "replay_cmd_template": "./check %s quick --replay {path}" % pid,
